@@ -17,7 +17,7 @@ ASSUMPTIONS = ["process-crash model as in the property: completed system calls p
                "content equality is not modelled: completeness of the renamed file is derived from the order flush/close -> rename",
                "paths are over-approximated (data abstracted); argument provenance (which path is renamed / deleted) is not tracked, only call order; in consolidate_shards_in_directory the files deleted are the entries of the per-group deletion list"]
 OUTSIDE = ["re-open behaviour with leftover temp files (directory scans are FFI; the name filters are covered by C12 harnesses)",
-           "fsync / power-loss durability"]
+           "fsync / power-loss durability", "crash points are covered as orderings of file-system events; the one real crash run (strace SIGKILL at the rename) only confirms counterexamples"]
 
 RESID = r"FromResidual<.*>>::from_residual$"
 
